@@ -164,6 +164,8 @@ def run_case(case):
         members = [(v, False) for v in vals] + ([(vals[0], True)] if nA else [])
         for (v, nd) in members:
             rows = realise(case, v, nd)
+            if nd and not rows:
+                continue        # every row removed: the checker refuses an empty frame, the property prescribes to skip such variants
             r = pipeline.run(rows, prms)
             res['n'] += 1
             if not r.ok:
